@@ -132,20 +132,27 @@ theorem sendreply_servers (w : World) (o : Nat) : (sendreply w o).servers = w.se
   | some r =>
     simp only
     cases r.frm with
-    | none => rfl
+    | none => simp only; rw [freerq_servers]
     | some ci =>
       simp only
       cases replyBytes w r (secretOfCli w ci) with
       | none => simp only; rw [freerq_servers]; rfl
-      | some b => simp only; rw [updCli_servers]; rfl
+      | some b =>
+        simp only
+        split
+        · rw [updCli_servers]; rfl
+        · rw [freerq_servers]; rfl
 
 /-- with a stored reply, `sendreply` queues the request once more and keeps the stored bytes -/
-theorem sendreply_stored (w : World) (o ci : Nat) (r : Rq) (b : Bytes)
-    (hg : getRq w o = some r) (hf : r.frm = some ci) (hb : r.replybuf = some b) :
+theorem sendreply_stored (w : World) (o ci : Nat) (r : Rq) (b : Bytes) (c : Client)
+    (hg : getRq w o = some r) (hf : r.frm = some ci) (hb : r.replybuf = some b) (hc : getCli w ci = some c) :
     sendreply w o = updCli (setRq w o { r with replybuf := some b, msg := none }) ci
                       (fun c => { c with replyq := c.replyq ++ [o] }) := by
   unfold sendreply
   have hrb : replyBytes w r (secretOfCli w ci) = some b := by unfold replyBytes; rw [hb]
-  simp only [hg, hf, hrb]
+  have hc' : (getCli (setRq w o { r with replybuf := some b, msg := none, frm := some ci }) ci).isSome = true := by
+    have : getCli (setRq w o { r with replybuf := some b, msg := none, frm := some ci }) ci = getCli w ci := rfl
+    rw [this, hc]; rfl
+  simp only [hg, hf, hrb, hc', if_true]
 
 end Rsp.World
